@@ -117,6 +117,97 @@ impl Withdrawal {
 //@body
 }
 
+
+// ---- LiquidityMarketExt::pool_value ----------------------------------------------------------------------------------
+pub struct BorrowingFeeParamsC { pub receiver_factor: N }
+impl BorrowingFeeParamsC { pub fn receiver_factor(&self) -> (r: &N) ensures *r == self.receiver_factor { &self.receiver_factor } }
+/// Carrier for `Self: LiquidityMarket` in pool_value: every read is a fallible table:
+///   pool_value_without_pnl_for_one_side(prices, is_long, maximize), total_pending_borrowing_fees(prices, is_long) (C13),
+///   borrowing_fee_params().receiver_factor, pnl(index price, is_long, maximize) (C11), pnl_factor_config(kind, is_long),
+///   passed_in_seconds_for_position_impact_distribution(), pending_position_impact_pool_distribution_amount(duration).1 (C14)
+pub struct PVMarket {
+    pub side_value: Ghost<spec_fn(bool, bool) -> Option<N>>, pub pending_fees: Ghost<spec_fn(bool) -> Option<N>>, pub receiver_factor: Option<N>,
+    pub pnl_tab: Ghost<spec_fn(bool, bool) -> Option<S>>, pub pnl_factor: Ghost<spec_fn(PnlFactorKind, bool) -> Option<N>>,
+    pub passed: Option<u64>, pub impact_next: Ghost<spec_fn(u64) -> Option<N>>,
+}
+
+/// a positive pnl is capped at pool value x factor (MarketUtils::cap_pnl, under contract in C11)
+pub open spec fn cap_spec(pnl: int, value: int, factor: int) -> int { if pnl > 0 { let m = mul_div_floor(value, factor, uunit()); if pnl > m { m } else { pnl } } else { pnl } }
+impl PVMarket {
+    #[verifier::external_body]
+    pub fn pool_value_without_pnl_for_one_side(&self, prices: &Prices, is_long: bool, maximize: bool) -> (r: Result<N, E>)
+        ensures r.is_ok() == (self.side_value@)(is_long, maximize).is_some(), r.is_ok() ==> r.unwrap() == (self.side_value@)(is_long, maximize).unwrap()
+    { unimplemented!() }
+    #[verifier::external_body]
+    pub fn total_pending_borrowing_fees(&self, prices: &Prices, is_long: bool) -> (r: Result<N, E>)
+        ensures r.is_ok() == (self.pending_fees@)(is_long).is_some(), r.is_ok() ==> r.unwrap() == (self.pending_fees@)(is_long).unwrap()
+    { unimplemented!() }
+    #[verifier::external_body]
+    pub fn borrowing_fee_params(&self) -> (r: Result<BorrowingFeeParamsC, E>)
+        ensures r.is_ok() == self.receiver_factor.is_some(), r.is_ok() ==> r.unwrap().receiver_factor == self.receiver_factor.unwrap()
+    { unimplemented!() }
+    #[verifier::external_body]
+    pub fn pnl(&self, index_token_price: &Price, is_long: bool, maximize: bool) -> (r: Result<S, E>)
+        ensures r.is_ok() == (self.pnl_tab@)(is_long, maximize).is_some(), r.is_ok() ==> r.unwrap() == (self.pnl_tab@)(is_long, maximize).unwrap()
+    { unimplemented!() }
+    #[verifier::external_body]
+    pub fn pnl_factor_config(&self, kind: PnlFactorKind, is_long: bool) -> (r: Result<N, E>)
+        ensures r.is_ok() == (self.pnl_factor@)(kind, is_long).is_some(), r.is_ok() ==> r.unwrap() == (self.pnl_factor@)(kind, is_long).unwrap()
+    { unimplemented!() }
+    #[verifier::external_body]
+    pub fn passed_in_seconds_for_position_impact_distribution(&self) -> (r: Result<u64, E>)
+        ensures r.is_ok() == self.passed.is_some(), r.is_ok() ==> r.unwrap() == self.passed.unwrap()
+    { unimplemented!() }
+    #[verifier::external_body]
+    pub fn pending_position_impact_pool_distribution_amount(&self, duration: u64) -> (r: Result<(N, N), E>)
+        ensures r.is_ok() == (self.impact_next@)(duration).is_some(), r.is_ok() ==> r.unwrap().1 == (self.impact_next@)(duration).unwrap()
+    { unimplemented!() }
+
+//@unit C06.MarketUtils.cap_pnl
+//@ file crates/model/src/market/utils.rs
+//@ within pub trait MarketUtils<const DECIMALS: u8>: BaseMarket<DECIMALS>
+//@ fn cap_pnl
+//@ sig fn cap_pnl( &self, is_long: bool, pnl: &Self::Signed, pool_value: &Self::Num, kind: PnlFactorKind, ) -> crate::Result<Self::Signed>
+//@ sub crate::utils::apply_factor\( => apply_factor(
+    pub fn cap_pnl(&self, is_long: bool, pnl: &S, pool_value: &N, kind: PnlFactorKind) -> (r: Result<S, E>)
+        ensures
+            pnl@ <= 0 ==> r.is_ok() && r.unwrap()@ == pnl@,
+            r.is_ok() && pnl@ > 0 ==> (self.pnl_factor@)(kind, is_long).is_some() && r.unwrap()@ == cap_spec(pnl@, pool_value@, (self.pnl_factor@)(kind, is_long).unwrap()@),
+//@body
+
+//@unit C06.LiquidityMarketExt.pool_value
+//@ file crates/model/src/market/liquidity.rs
+//@ within pub trait LiquidityMarketExt<const DECIMALS: u8>: LiquidityMarket<DECIMALS>
+//@ fn pool_value
+//@ sig fn pool_value( &self, prices: &Prices<Self::Num>, pnl_factor: PnlFactorKind, maximize: bool, ) -> crate::Result<Self::Signed>
+//@ sub <Self::Num>::UNIT => N::UNIT
+//@ sub \.and_then\(\|factor\| crate::utils::apply_factor\(&total_borrowing_fees, &factor\)\) => .and_then(|factor: N| -> (o: Option<N>) ensures o == fit_u(mul_div_floor(total_borrowing_fees@, factor@, uunit())) { apply_factor(&total_borrowing_fees, &factor) })
+    pub fn pool_value(&self, prices: &Prices, pnl_factor: PnlFactorKind, maximize: bool) -> (r: Result<S, E>)
+        ensures
+            r.is_ok() ==> pv_reads_ok(*self, maximize),
+            // pool value = both sides' token value (valued with `maximize`)
+            //            + the pool's share of the pending borrowing fees
+            //            - the capped pnl of both sides, taken at the OPPOSITE extreme (`!maximize`) and capped with the given kind
+            //            - the pending position impact pool, valued at the OPPOSITE index price (`!maximize`)
+            r.is_ok() ==> r.unwrap()@ == pv_spec(*self, *prices, pnl_factor, maximize),
+//@body
+}
+pub open spec fn pv_reads_ok(m: PVMarket, maximize: bool) -> bool {
+    (m.side_value@)(true, maximize).is_some() && (m.side_value@)(false, maximize).is_some() && (m.pending_fees@)(true).is_some() && (m.pending_fees@)(false).is_some()
+    && m.receiver_factor.is_some() && (m.pnl_tab@)(true, !maximize).is_some() && (m.pnl_tab@)(false, !maximize).is_some() && m.passed.is_some()
+    && (m.impact_next@)(m.passed.unwrap()).is_some()
+}
+pub open spec fn capped_side_pnl(m: PVMarket, kind: PnlFactorKind, is_long: bool, maximize: bool) -> int {
+    let pnl = (m.pnl_tab@)(is_long, !maximize).unwrap()@;
+    if pnl > 0 { cap_spec(pnl, (m.side_value@)(is_long, maximize).unwrap()@, (m.pnl_factor@)(kind, is_long).unwrap()@) } else { pnl }
+}
+pub open spec fn pv_spec(m: PVMarket, prices: Prices, kind: PnlFactorKind, maximize: bool) -> int {
+    (m.side_value@)(true, maximize).unwrap()@ + (m.side_value@)(false, maximize).unwrap()@
+    + mul_div_floor((m.pending_fees@)(true).unwrap()@ + (m.pending_fees@)(false).unwrap()@, uunit() - m.receiver_factor.unwrap()@, uunit())
+    - (capped_side_pnl(m, kind, true, maximize) + capped_side_pnl(m, kind, false, maximize))
+    - (m.impact_next@)(m.passed.unwrap()).unwrap()@ * (if !maximize { prices.index_token_price.max@ } else { prices.index_token_price.min@ })
+}
+
 // ---- the statement over the conversion contracts ---------------------------------------------------------------------
 /// what a withdrawal pays out, valued at the max prices it was computed with, never exceeds the value of the burnt tokens
 pub proof fn lemma_payout_le_burnt_value(v: int, lv: int, sv: int, pl: int, ps: int)
